@@ -62,7 +62,7 @@ def main(tier):
             if rc != 0 or "AddressSanitizer" in out:
                 chk.violation({"op": "iso-solo", "seq": s}, "solo run of sequence %s failed: %s" % (s, out[-300:]))
             solo[(s, role)] = {int(m.group(1)): m.group(2) for m in re.finditer(r"^P %d (\d+) (.*)$" % role, out, re.M)}
-    bseqs = seqs if not quick else [x for x in ("dt", "hg", "dx", "gx", "kg", "fg") if x in seqs]
+    bseqs = seqs if not quick else [x for x in ("dt", "hg", "dx", "gx", "th", "hd", "kg", "fg") if x in seqs]
     jobs = [(sa, sb, il) for sa in seqs for sb in bseqs for il in interleavings(2, 2)]
 
     def iso_run(j):
@@ -74,6 +74,12 @@ def main(tier):
         for (sa, sb, il), rc, out in ex.map(iso_run, jobs):
             traces += 1
             transitions += 4
+            mstd = re.search(r"^STDCLOSED (\d) (.*)$", out, re.M)
+            if mstd:
+                chk.violation({"op": "std-descriptor-closed", "fd": int(mstd.group(1)), "a": sa, "b": sb, "interleaving": il},
+                              "contexts A:%s B:%s interleaved %s: process-wide descriptor %s was closed %s" % (sa, sb, il, mstd.group(1), mstd.group(2)),
+                              "ctxmc iso %s %s %s\n" % (sa, sb, il), ext="txt")
+                continue
             if rc != 0 or "AddressSanitizer" in out:
                 chk.violation({"op": "iso-crash", "a": sa, "b": sb, "interleaving": il},
                               "contexts A:%s B:%s interleaved %s: abnormal end rc=%s %s" % (sa, sb, il, rc, out[-400:]))
@@ -128,7 +134,7 @@ def main(tier):
                     chk.exhaustive = False
                     break
                 lines = dict(re.findall(r"^T(\d+) (.*)$", out, re.M))
-                bad = rc != 0 or any(lines.get(str(i)) != base[i % 4] for i in range(nn))
+                bad = rc != 0 or "STDCLOSED" in out or any(lines.get(str(i)) != base[i % 4] for i in range(nn))
                 if bad:
                     chk.violation({"op": "thread-schedule", "threads": nn, "schedule": list(sched)},
                                   "%d threads, pre-emptions at points %s: outputs %s differ from the solo baselines (rc=%s)" % (nn, list(sched), lines, rc),
@@ -162,6 +168,21 @@ def main(tier):
             chk.violation({"op": "data-race", "threads": n}, "ThreadSanitizer report with %d threads: %s" % (n, first.group(0)[:900] if first else out[:600]))
         if rc != 0 or any(lines.get(str(i)) != base[(i + (0 if quick else 2)) % 4] for i in range(n)):
             chk.violation({"op": "thread-output", "threads": n}, "free-running threads: outputs differ from the solo baselines rc=%s: %s" % (rc, str(lines)[:400]))
+    # the same letter count on the plain build, where the threads really run in parallel: 8 threads x 200000 letters, three runs
+    for rep in range(3):
+        if chk.time_left() < 15:
+            chk.exhaustive = False
+            break
+        nl = 200000
+        rc, out = run_ctxmc("opt", ["threads", 8, 1, nl], timeout=300)
+        chk.count(1, outcome="stdout-run")
+        body = [l for l in out.split("\n") if re.fullmatch("[a-z]*", l)]
+        for i in range(8):
+            got = sum(l.count(chr(97 + i)) for l in body)
+            if rc != 0 or got != nl:
+                chk.violation({"op": "shared-stdout", "threads": 8, "thread": i, "got": got, "want": nl, "variant": "opt"},
+                              "8 threads writing to the process-wide stdout through their own contexts (plain build, rc=%s): thread %d's letter arrived %d times instead of %d" % (rc, i, got, nl))
+                break
     chk.cov["states"] = states
     chk.cov["transitions"] = transitions
     chk.cov["traces_validated_against_impl"] = traces
